@@ -100,7 +100,7 @@ TEXT = {
     ),
     "C20": dict(
         level="Explicit-state model checking of the hosting layer: breadth-first search over event sequences on the real reconcilers of both controller kinds, state deduplicated by (stored spec, running spec) per name - the single-name search closes (fixpoint), so event sequences of any length are covered for one name; after every event the running instances are compared with the reference model and probed with a parent event for wake-up and hook isolation.",
-        note="Behaviour units run with numWorkers=0 (the harness is the worker); a separate life-cycle unit runs real workers (numWorkers=2) over every event sequence to depth 3 on one name and asserts only the goroutine census (no worker of a stopped instance survives Stop; exactly 2 per running instance eventually). Two-name searches are depth-capped and reported as such.",
+        note="Behaviour units run with numWorkers=0 (the harness is the worker); a separate life-cycle unit runs real workers (numWorkers=2) over every event sequence to depth 3 on one name and asserts the goroutine census (no worker of a stopped instance survives Stop; exactly 2 per running instance eventually) and that Stop waits for a worker that is inside its sync hook (no hook response handling or write on behalf of a stopped instance). Two-name searches are depth-capped and reported as such.",
         technique="explicit-state BFS over the real reconcile function with a reference model (fixpoint for one name)",
     ),
 }
